@@ -245,3 +245,39 @@ pub fn drive_chain(w: u32, s: u32, precs: &[usize], seed: u64, n_rounds: usize, 
     }
     rep
 }
+
+/// C12 at the real presets: from an empty coder, after every symbol the occupied bits stay within
+/// sum of information contents + n * log2(1 + 2^-(S-W-P)) (range coder: -log2(1 - 2^-(S-W-P))) + S + 2W, and words <= n + S/W + 1.
+pub fn drive_bound(seed: u64, n_syms: usize) -> Report {
+    use crate::range::*;
+    let mut rep = Report::default();
+    for (w, s, precs) in [(32u32, 64u32, vec![24usize, 16, 32, 8]), (16, 32, vec![12, 16, 8]), (16, 64, vec![16, 12]), (8, 32, vec![8, 4]), (8, 16, vec![8, 4, 1]), (64, 128, vec![32, 24])] {
+        let mut rng = Xoshiro256StarStar::seed_from_u64(seed ^ 0xb0d ^ ((w as u64) << 8) ^ s as u64);
+        let ctxv = json!({"k": "drive_bound", "w": w, "s": s, "seed": seed});
+        for fixed_p in [true, false] {
+            let mut ans = ans_new(w, s); let mut enc = renc_new(w, s);
+            let (mut info, mut eps_ans, mut eps_rng) = (0f64, 0f64, 0f64);
+            for n in 1..=n_syms {
+                let prec = if fixed_p { precs[0] } else { precs[rng.gen_range(0..precs.len())] };
+                let cdf = random_cdf(&mut rng, prec); let sym = rng.gen_range(0..cdf.len() - 1);
+                let p = (cdf[sym + 1] - cdf[sym]) as f64;
+                info += prec as f64 - p.log2();
+                let k = (s - w) as i32 - prec as i32;
+                eps_ans += (1.0 + 2f64.powi(-k)).log2();
+                eps_rng += if k > 0 { -(1.0 - 2f64.powi(-k)).log2() } else { f64::INFINITY };
+                ans.enc(prec, &cdf, sym).unwrap(); enc.enc(prec, &cdf, sym).unwrap();
+                rep.checks += 2;
+                let bits = ans.num_valid_bits() as f64;
+                if bits > info + eps_ans + (s + 2 * w) as f64 + 1e-6 { rep.mismatch(&ctxv, format!("AnsCoder<{},{}>: {} valid bits after {} symbols, bound {:.3} + {:.3} + {}", w, s, bits, n, info, eps_ans, s + 2 * w)); return rep; }
+                if ans.num_words() > n + (s / w) as usize + 1 { rep.mismatch(&ctxv, format!("AnsCoder<{},{}>: {} words after {} symbols", w, s, ans.num_words(), n)); return rep; }
+                let rbits = enc.num_bits() as f64;
+                if eps_rng.is_finite() && rbits > info + eps_rng + (s + 2 * w) as f64 + 1e-6 { rep.mismatch(&ctxv, format!("RangeEncoder<{},{}>: {} bits after {} symbols, bound {:.3} + {:.3} + {}", w, s, rbits, n, info, eps_rng, s + 2 * w)); return rep; }
+                if enc.num_words() > n + (s / w) as usize { rep.mismatch(&ctxv, format!("RangeEncoder<{},{}>: {} words after {} symbols", w, s, enc.num_words(), n)); return rep; }
+                if n % 97 == 0 { let _ = enc.get_compressed(); let _ = ans.get_compressed(); let _ = ans.get_binary(); }
+            }
+            rep.cases += 1; rep.class(if fixed_p { "bound_fixed_precision" } else { "bound_varying_precision" });
+            if w == 32 && fixed_p { let per_symbol = eps_ans / n_syms as f64; if per_symbol >= 0.006 { rep.mismatch(&ctxv, format!("default preset rounding term {} >= 0.006 bit", per_symbol)); } rep.class("default_preset_overhead_below_0.006"); }
+        }
+    }
+    rep
+}
